@@ -564,16 +564,7 @@ def _parse_schema(
         elif schema_type in PRIMITIVES:
             parsed_schema["type"] = schema_type
             if default is not NO_DEFAULT:
-                if (
-                    (schema_type == "null" and default is not None)
-                    or (schema_type == "boolean" and not isinstance(default, bool))
-                    or (schema_type == "string" and not isinstance(default, str))
-                    or (schema_type == "bytes" and not isinstance(default, str))
-                    or (schema_type == "double" and not isinstance(default, float))
-                    or (schema_type == "float" and not isinstance(default, float))
-                    or (schema_type == "int" and not isinstance(default, int))
-                    or (schema_type == "long" and not isinstance(default, int))
-                ):
+                if not _default_matches_schema(default, schema_type):
                     _raise_default_value_error(
                         default, schema_type, ignore_default_error
                     )
